@@ -318,7 +318,7 @@ func (la *LockAn) Analyze(fn *ssa.Function, entry LockSet) *FnLocks {
 			// a synchronous call of an in-package function that takes over and
 			// releases a lock (lock wrapper): apply its net effect
 			if call, isCall := ins.(*ssa.Call); isCall {
-				cal := call.Call.StaticCallee()
+				cal := CalleeFn(&call.Call)
 				if cal == nil {
 					cal = FuncOfValue(call.Call.Value)
 				}
@@ -439,7 +439,7 @@ func (la *LockAn) EntryLocks(fn *ssa.Function) LockSet {
 			if !ok {
 				return
 			}
-			cal := c.Common().StaticCallee()
+			cal := CalleeFn(c.Common())
 			if cal == nil {
 				cal = FuncOfValue(firstOrigin(c.Common().Value))
 			}
